@@ -299,6 +299,14 @@ func namesTables(c *Ctx, required []string, exact bool, withDefaults bool) {
 		{"a parameter named like the second of two packages one type imports", []addStep{{"kb", intF, ""}, {"m", func() ktype {
 			return &interp.Opaque{Kind: "types.Type", ID: "map2p", GoType: "*go/types.Map", Methods: mmap{"Key": tmeth(kLeaf("ka")), "Elem": tmeth(kLeaf("kb"))}}
 		}, ""}}, []int{1}},
+		// names are compared exactly: what differs in case collides with nothing
+		{"written names that differ only in case", []addStep{{"userID", intF, ""}, {"userId", strT, ""}}, []int{0, 1}},
+		{"a parameter written in upper case next to a package of that name in lower case", []addStep{{"KA", intF, ""}, {"x", leaf("ka"), ""}}, []int{0, 1}},
+		// once two packages of one name have been given other qualifiers, their bare name is free again
+		{"a parameter written like the bare name two re-qualified packages share", []addStep{
+			{"x", func() ktype { return kNamedIn("example.test/alpha/kc", "kc", "T1", nil, nil) }, ""},
+			{"y", func() ktype { return kNamedIn("example.test/beta/kc", "kc", "T2", nil, nil) }, ""},
+			{"kc", intF, ""}}, []int{0, 1, 2}},
 	}
 	if c.Tier == "thorough" {
 		// longer runs of one type, two numbered qualifiers at once, results and parameters mixed
@@ -385,6 +393,58 @@ func namesTables(c *Ctx, required []string, exact bool, withDefaults bool) {
 		}
 		sort.Strings(ql)
 		run.Check("G-ADDVAR/table", sc.key, pos, distinct && clash == "" && kept, fmt.Sprintf("%s: the variables are named %v, the imports qualified %v — want pairwise distinct, non-blank names, none equal to an import qualifier of the file, and written names kept where nothing collides with them", sc.key, all, ql))
+	}
+	// ---------------- an unnamed parameter is not named like a type its own type text spells without a
+	// qualifier (a type of the destination package): inside the method that name would denote the parameter
+	{
+		ownNamed := func(n string) func() ktype {
+			return func() ktype { return kNamedIn(rwSrcPath, rwSrcName, n, nil, nil) }
+		}
+		rows := []struct {
+			desc string
+			t    func() ktype
+			ids  []string
+		}{
+			{"a defined type of the destination package with a lower-case name", ownNamed("node"), []string{"node"}},
+			{"a pointer to such a type", func() ktype { return kElem("*go/types.Pointer", ownNamed("node")()) }, []string{"node"}},
+			{"an alias declared in the destination package with a lower-case name", func() ktype {
+				return kAliasIn(rwSrcPath, rwSrcName, "keys", kElem("*go/types.Slice", strT()))
+			}, []string{"keys"}},
+			{"an alias of a defined type, both of the destination package", func() ktype { return kAliasIn(rwSrcPath, rwSrcName, "leaf", ownNamed("node")()) }, []string{"leaf"}},
+		}
+		for _, row := range rows {
+			w, err := newNameWorld(prog)
+			if err != nil {
+				und("G-NAMING/own-type", row.desc, err)
+				continue
+			}
+			// the world's models do not know declared aliases yet
+			w.m.Ext["go/types.Unalias"] = func(m *interp.Machine, p token.Pos, recv interp.Value, a []interp.Value) (interp.Value, error) {
+				if o, ok := a[0].(*interp.Opaque); ok {
+					if v, ok := o.Attrs["unalias"]; ok {
+						return v, nil
+					}
+				}
+				return a[0], nil
+			}
+			v, err := w.add(interp.Lit(""), row.t(), "")
+			if err == nil && w.m.Choices.Forked() {
+				err = fmt.Errorf("the name depends on something the abstract type does not fix (%s)", w.m.Choices.Describe())
+			}
+			if err != nil {
+				und("G-NAMING/own-type", row.desc, err)
+				continue
+			}
+			got := varNameOf(v)
+			shadows := false
+			for _, id := range row.ids {
+				if got == id {
+					shadows = true
+				}
+			}
+			run.Check("G-NAMING/own-type", row.desc, pos, !shadows && got != "", fmt.Sprintf("an unnamed parameter whose type is %s is named %q: inside the generated method that name hides the type the parameter list and the call record spell (\"%s is not a type\")", row.desc, got, got))
+		}
+		run.Floor("G-NAMING/own-type", 4)
 	}
 	// ---------------- every call of MethodScope hands out a fresh, empty scope
 	{
